@@ -29,6 +29,8 @@ NAMES_OK = ('run', 'with space', 'ünï', '-dash', 'dot.ted', 'x' * 120,
             'y' * 230)
 NAMES_BAD = ('sl/ash', 'nul\0char', '.', '..', '/abs', '')
 CODE_KINDS = ('checkout', 'build')
+_STATE = {}
+REAL_WALL_LIMIT = 25.0     # a real /bin/sh printing a few kilobytes
 MARKER = '--verif-task-%d'
 STALE = 'STALE text left by an earlier run\n'
 QUIET = {'exit': 0, 'dur': 0, 'out': '', 'err': '', 'start': None, 'args': []}
@@ -82,9 +84,15 @@ def gen_scenario(rng, fam):
             cmd = {'exit': 0, 'dur': rng.choice((0, 1, 5, 30)),
                    'out': rng.choice(('', 'O%d.%d line\n' % (i, k),
                                       'O%d.%d no newline' % (i, k),
-                                      ('O%d.%d big ' % (i, k)) * 300 + '\n')),
+                                      ('O%d.%d big ' % (i, k)) * 300 + '\n',
+                                      'O%d.%d dos\r\nline\rend' % (i, k))),
                    'err': rng.choice(('', 'E%d.%d oops\n' % (i, k),
-                                      'E%d.%d partial' % (i, k))),
+                                      'E%d.%d partial' % (i, k),
+                                      'E%d.%d progress 10%%\r20%%\r\n'
+                                      % (i, k),
+                                      # more than a pipe holds
+                                      ('E%d.%d long ' % (i, k)) * 7000
+                                      + '\n')),
                    'start': None,
                    'args': rng.choice(([], ['-x'], ['two words', '$HOME'],
                                        ["it's"], ['-x'], [],
@@ -257,8 +265,14 @@ def run_scenario(scn, chooser, max_steps=200000):
                 os.makedirs(os.path.join(root, name, '.git'), exist_ok=True)
     lf = load.line_files(mods, ('queue', 'env', 'run', 'path', 'code')) \
         if scn.get('linemode') else None
+    if scn.get('real_call') and _STATE.get('real_blocked'):
+        # a real child has already blocked for good in this process: the
+        # point is made, the remaining real runs would only wait as long
+        scn = dict(scn, real_call=False, was_real=True)
     sim = core.Sim(chooser, tick=scn['tick'], max_steps=max_steps,
-                   line_files=lf, keep_trace=False)
+                   line_files=lf, keep_trace=False,
+                   wall_limit=REAL_WALL_LIMIT if scn.get('real_call')
+                   else 60.0)
     table = {}
     markers = {}
     for i, tsk in enumerate(scn['tasks']):
@@ -270,67 +284,201 @@ def run_scenario(scn, chooser, max_steps=200000):
     ncalls = {}
     proc_log = []
     holder = {}
-    real_call = subprocess.call
+    PIPE_CAPACITY = 65536
 
-    def stub_call(cli, *args, stdout=None, stderr=None, cwd=None, **kwargs):
-        key = tuple(cli)
-        ident = table.get(key)
-        if ident is None:
-            hits = sorted({markers[tok] for tok in cli if tok in markers})
-            if len(hits) == 1:
-                # the k-th call made by a code task
-                ident = (hits[0], ncalls.get(hits[0], 0))
-                ncalls[hits[0]] = ident[1] + 1
-        rec = {'cli': list(cli), 'cwd': cwd, 'step': sim.steps,
-               'ident': ident, 'kwargs': sorted(kwargs)}
-        proc_log.append(rec)
-        if ident is None:
-            sim.hit('unknown-command')
-            raise FileNotFoundError(errno.ENOENT, 'no such command', cli[0])
-        i, k = ident
-        cmds = scn['tasks'][i]['cmds']
-        cmd = cmds[k] if k < len(cmds) else QUIET
-        rec['cmd'] = cmd
-        sim.mark('proc-start', ident)
-        if cmd['start']:
-            rec['raised'] = True
-            sim.hit('startup-failure:' + cmd['start'])
-            exc = START_FAIL[cmd['start']]
-            if cmd['start'] == 'BADARG':
-                raise exc('expected str, bytes or os.PathLike object, not int')
-            if cmd['start'] == 'NULBYTE':
-                raise exc('embedded null byte')
-            if cmd['start'] == 'EMPTYCLI':
-                raise exc('list index out of range')
-            raise exc(getattr(errno, cmd['start']),
-                      os.strerror(getattr(errno, cmd['start'])), cli[0])
-        # the child writes straight to the descriptors it was given
-        half = len(cmd['out']) // 2
-        if stdout is not None and cmd['out']:
-            os.write(stdout.fileno(), cmd['out'][:half].encode())
-        if cmd['dur']:
-            sim.sleep(cmd['dur'] * sim.tick, 'proc')
-        else:
+    class FakePopen:
+        """The process seam: a scripted process table behind the constructor
+        and the methods of subprocess.Popen that call(), run(), check_*()
+        and code written directly on Popen use.  The "child" writes to the
+        descriptors it is given, or into pipes of the usual capacity when it
+        is given subprocess.PIPE."""
+
+        def __init__(self, args, bufsize=-1, executable=None, stdin=None,
+                     stdout=None, stderr=None, preexec_fn=None,
+                     close_fds=True, shell=False, cwd=None, env=None,
+                     universal_newlines=None, startupinfo=None,
+                     creationflags=0, restore_signals=True,
+                     start_new_session=False, pass_fds=(), *, text=None,
+                     encoding=None, errors=None, **kwargs):
+            cli = list(args) if not isinstance(args, (str, bytes)) else [args]
+            self.args = args
+            self.pid = 4000 + len(proc_log)
+            self.returncode = None
+            self.stdin = None
+            self._text = bool(universal_newlines or text or encoding
+                              or errors)
+            self._targets = {'out': stdout, 'err': stderr}
+            self._pending = {'out': b'', 'err': b''}
+            self.stdout = self.stderr = None
+            try:
+                key = tuple(cli)
+                ident = table.get(key)
+            except TypeError:
+                ident = None
+            if ident is None:
+                hits = sorted({markers[tok] for tok in cli
+                               if isinstance(tok, str) and tok in markers})
+                if len(hits) == 1:
+                    # the k-th call made by a code task
+                    ident = (hits[0], ncalls.get(hits[0], 0))
+                    ncalls[hits[0]] = ident[1] + 1
+            rec = {'cli': cli, 'cwd': cwd, 'step': sim.steps,
+                   'ident': ident, 'kwargs': sorted(kwargs)}
+            proc_log.append(rec)
+            self._rec = rec
+            if ident is None:
+                sim.hit('unknown-command')
+                raise FileNotFoundError(errno.ENOENT, 'no such command',
+                                        str(cli[0]) if cli else '')
+            i, k = ident
+            cmds = scn['tasks'][i]['cmds']
+            cmd = cmds[k] if k < len(cmds) else QUIET
+            rec['cmd'] = cmd
+            self._cmd = cmd
+            sim.mark('proc-start', ident)
+            if cmd['start']:
+                rec['raised'] = True
+                sim.hit('startup-failure:' + cmd['start'])
+                exc = START_FAIL[cmd['start']]
+                if cmd['start'] == 'BADARG':
+                    raise exc('expected str, bytes or os.PathLike object, '
+                              'not int')
+                if cmd['start'] == 'NULBYTE':
+                    raise exc('embedded null byte')
+                if cmd['start'] == 'EMPTYCLI':
+                    raise exc('list index out of range')
+                raise exc(getattr(errno, cmd['start']),
+                          os.strerror(getattr(errno, cmd['start'])),
+                          str(cli[0]))
+            for name in ('out', 'err'):
+                if self._targets[name] == subprocess.PIPE:
+                    setattr(self, 'std' + name, _PipeEnd(self, name))
+
+        # -- the child ----------------------------------------------------
+        def _emit(self, name, data):
+            target = self._targets[name]
+            if not data or target is None:
+                return
+            if target == subprocess.PIPE:
+                self._pending[name] += data
+            elif target == subprocess.STDOUT and name == 'err':
+                self._emit('out', data)
+            elif target == subprocess.DEVNULL:
+                return
+            elif isinstance(target, int):
+                os.write(target, data)
+            else:
+                os.write(target.fileno(), data)
+
+        def _run_child(self, drained):
+            """The process runs to its end -- unless it fills a pipe that
+            nobody reads, in which case it (and whoever waits for it) blocks
+            for ever, like the real thing."""
+            if self.returncode is not None:
+                return
+            cmd = self._cmd
+            half = len(cmd['out']) // 2
+            self._emit('out', cmd['out'][:half].encode())
+            if cmd['dur']:
+                sim.sleep(cmd['dur'] * sim.tick, 'proc')
+            else:
+                sim.yield_point('proc')
+            self._emit('err', cmd['err'].encode())
+            self._emit('out', cmd['out'][half:].encode())
+            if not drained and any(len(buf) > PIPE_CAPACITY
+                                   for buf in self._pending.values()):
+                sim.hit('child-blocked-on-a-full-pipe')
+                core.shims()[0].Event().wait()      # never set
+            sim.mark('proc-exit', self._rec['ident'])
+            self._rec['exit_step'] = sim.steps
+            self._rec['code'] = cmd['exit']
+            if cmd['exit'] != 0:
+                sim.hit('nonzero-exit')
+            self.returncode = cmd['exit']
+
+        def _take(self, name):
+            data, self._pending[name] = self._pending[name], b''
+            if self._text:
+                return data.decode('utf-8').replace('\r\n', '\n') \
+                    .replace('\r', '\n')
+            return data
+
+        # -- the parent's view --------------------------------------------
+        def wait(self, timeout=None):
+            self._run_child(drained=False)
+            return self.returncode
+
+        def poll(self):
+            return self.returncode
+
+        def communicate(self, input=None, timeout=None):
+            self._run_child(drained=True)
+            out = self._take('out') if self.stdout is not None else None
+            err = self._take('err') if self.stderr is not None else None
+            return out, err
+
+        def kill(self):
+            if self.returncode is None:
+                self.returncode = -9
+
+        terminate = kill
+
+        def send_signal(self, _sig):
+            self.kill()
+
+        def __enter__(self):
+            return self
+
+        def __exit__(self, *exc_info):
+            if self.returncode is None and exc_info[0] is None:
+                self._run_child(drained=True)
+            return False
+
+    class _PipeEnd:
+        def __init__(self, proc, name):
+            self.proc, self.name = proc, name
+
+        def read(self, *_args):
+            # reading drains the pipe: the child can go on
+            self.proc._run_child(drained=True)
+            return self.proc._take(self.name)
+
+        def readlines(self):
+            return self.read().splitlines(True)
+
+        def __iter__(self):
+            return iter(self.readlines())
+
+        def close(self):
+            pass
+
+    real_popen = subprocess.Popen
+    live = []
+
+    class LoggingPopen(real_popen):
+        def __init__(self, args, *pargs, **kwargs):
+            cli = list(args) if not isinstance(args, (str, bytes)) else [args]
+            try:
+                ident = table.get(tuple(cli))
+            except TypeError:
+                ident = None
+            rec = {'cli': cli, 'cwd': kwargs.get('cwd'), 'step': sim.steps,
+                   'ident': ident, 'kwargs': sorted(kwargs)}
+            proc_log.append(rec)
+            self._rec = rec
+            live.append(self)
+            sim.hit('real-subprocess-call')
             sim.yield_point('proc')
-        if stderr is not None and cmd['err']:
-            os.write(stderr.fileno(), cmd['err'].encode())
-        if stdout is not None and cmd['out']:
-            os.write(stdout.fileno(), cmd['out'][half:].encode())
-        sim.mark('proc-exit', ident)
-        rec['exit_step'] = sim.steps
-        rec['code'] = cmd['exit']
-        if cmd['exit'] != 0:
-            sim.hit('nonzero-exit')
-        return cmd['exit']
+            try:
+                super().__init__(args, *pargs, **kwargs)
+            except BaseException:
+                rec['raised'] = True
+                raise
 
-    def logging_real_call(cli, *args, **kwargs):
-        key = tuple(cli)
-        rec = {'cli': list(cli), 'cwd': kwargs.get('cwd'), 'step': sim.steps,
-               'ident': table.get(key), 'kwargs': sorted(kwargs)}
-        proc_log.append(rec)
-        sim.hit('real-subprocess-call')
-        sim.yield_point('proc')
-        return real_call(cli, *args, **kwargs)
+        def wait(self, timeout=None):
+            code = super().wait(timeout)
+            self._rec['code'] = code
+            return code
 
     def main():
         objs = []
@@ -405,8 +553,17 @@ def run_scenario(scn, chooser, max_steps=200000):
                                            backend=backend)
         return schd.schedule(env=env, config=config)
 
-    saved = run_mod.call
-    run_mod.call = logging_real_call if scn.get('real_call') else stub_call
+    # the seam is subprocess.Popen: call(), run(), check_*() and code written
+    # on Popen itself all end up there, whatever name the module under test
+    # imported (names bound to the real class at import time are re-bound)
+    seam = LoggingPopen if scn.get('real_call') else FakePopen
+    rebound = []
+    subprocess.Popen = seam
+    for mod in (run_mod, mods['code']):
+        for name, val in list(vars(mod).items()):
+            if val is real_popen:
+                rebound.append((mod, name))
+                setattr(mod, name, seam)
     res = Result()
     try:
         outcome = sim.run(main)
@@ -454,7 +611,18 @@ def run_scenario(scn, chooser, max_steps=200000):
         res.top_level = sorted(os.listdir(root)) if os.path.isdir(root) \
             else []
     finally:
-        run_mod.call = saved
+        subprocess.Popen = real_popen
+        for mod, name in rebound:
+            setattr(mod, name, real_popen)
+        for proc in live:
+            # a real child still there: blocked for good (a full pipe)
+            if proc.returncode is None and real_popen.poll(proc) is None:
+                _STATE['real_blocked'] = True
+                proc.kill()
+                try:
+                    real_popen.wait(proc, 5)
+                except Exception:   # noqa
+                    pass
         shutil.rmtree(top, ignore_errors=True)
     return res
 
@@ -742,7 +910,8 @@ class Spec(simcheck.SimSpec):
             'digests')
     assumptions = [
         'a child process writes to the descriptors it is given (the stub '
-        'uses os.write on stdout.fileno()/stderr.fileno())',
+        'uses os.write on them), or into pipes of 64 KiB when it is given '
+        'subprocess.PIPE: it blocks for ever on a full pipe nobody reads',
         'the stderr file is only required to contain the commands\' own '
         'stderr texts in order (the echoed command lines are not specified '
         'by the property)',
@@ -751,8 +920,8 @@ class Spec(simcheck.SimSpec):
             'make_cap_paths)', 'valjean.path', 'valjean.cosette.pythontask',
             'valjean.cosette.backends.queue', 'valjean.cosette.env',
             'valjean.cosette.scheduler', 'the real file system (scratch)',
-            'subprocess.call + /bin/sh in the real-subprocess family']
-    stub = ['subprocess.call as seen by valjean.cosette.run (scripted process '
+            'subprocess.Popen + /bin/sh in the real-subprocess family']
+    stub = ['subprocess.Popen, hence call()/run()/check_*() (scripted process '
             'table)', 'threading / time / queue (simulator)']
 
     def gen(self, rng, fam):
